@@ -40,6 +40,16 @@ func build(tier string) []*explore.Scenario {
 			scs = append(scs, hlib.WriteScenario(hlib.WParams{Cfg: cfg, Writers: hlib.Mixes(3, 2)[1], Bound: 2, Cache: true, Shards: 8, Tag: "3x2"}, hlib.CheckQuiescent))
 		}
 	}
+	// larger queues (batch capacity q/2+1 > 2): one writer bursting 2q+2 calls, a second writer, one preemption
+	for _, q := range []int{5, 8} {
+		var burst []hlib.EP
+		for i := 0; i < 2*q+2; i++ {
+			burst = append(burst, []hlib.EP{hlib.Write1, hlib.Writev, hlib.CtxWrite1, hlib.CtxWritev, hlib.WriterWrite}[i%5])
+		}
+		for _, until := range []bool{true, false} {
+			scs = append(scs, hlib.WriteScenario(hlib.WParams{Cfg: hlib.ChanCfg{Q: q, Until: until}, Writers: [][]hlib.EP{burst, {hlib.Writev, hlib.Write1}}, Bound: 1, Cache: true, Tag: "burst"}, hlib.CheckQuiescent))
+		}
+	}
 	// size sweep: boundary sizes through every entry point (deviation bound 1)
 	sizes := []int{0, 1, 1023, 1024, 1025, 2047, 2048, 2049, 4096, 65535, 65536, 65537, 131072}
 	eps := []hlib.EP{hlib.Write1, hlib.Writev, hlib.CtxWrite1, hlib.CtxWritev, hlib.WriterWrite}
